@@ -88,9 +88,7 @@ def apply (fs : FS) : Step → FS
   | .chunk s f w => fs.setSeg s (fun st => { st with chunks := st.chunks ++ [(f, w)] })
   | .bsu s f ws => fs.setSeg s (fun st => { st with bsu := st.bsu ++ [(f, ws)] })
   | .sstTmp s fls => fs.setSeg s (fun st => { st with sstTmp := some fls })
-  | .sstRename s => fs.setSeg s (fun st => match st.sstTmp with
-    | some c => { st with sst := some c, sstTmp := none }
-    | none => st)
+  | .sstRename s => fs.setSeg s (fun st => { st with sst := (st.sstTmp <|> st.sst), sstTmp := none })
   | .sfmTrunc s => fs.setSeg s (fun st => { st with sfm := .empty })
   | .sfmWrite s fls => fs.setSeg s (fun st => { st with sfm := .json fls })
   | .segmetaAppend s fls => { fs with segmeta := fs.segmeta ++ [(s, fls)] }
@@ -146,12 +144,17 @@ def steps (h : Hist) : List Step := openSteps 0 ++ stepsFrom {} h
 /-- the data directory after a crash that let exactly the first `k` steps complete -/
 def crashAfter (h : Hist) (k : Nat) : FS := run {} ((steps h).take k)
 
+/-- the flush (if any) that a command performs -/
+def cmdFlush (w : W) : Cmd → List Nat
+  | .fl _ => [w.nf]
+  | .ro => []
+
 /-- flushes all of whose steps lie within the first `k` steps of `stepsFrom w h` -/
 def completedFrom (w : W) : Hist → Nat → List Nat
   | [], _ => []
   | c :: h, k =>
     let n := (cmdSteps w c).length
-    if n ≤ k then (match c with | .fl _ => [w.nf] | .ro => []) ++ completedFrom (next w c) h (k - n) else []
+    if n ≤ k then cmdFlush w c ++ completedFrom (next w c) h (k - n) else []
 
 /-- flushes that had completed (their running .sfm written) when the crash hit after `k` steps -/
 def completed (h : Hist) (k : Nat) : List Nat := completedFrom {} h (k - 3)
@@ -168,11 +171,19 @@ def inflightFrom (w : W) : Hist → Nat → Option Nat
 
 def inflight (h : Hist) (k : Nat) : Option Nat := inflightFrom {} h (k - 3)
 
-/-- the crash hit inside `WriteSfm`, between the truncating open and the write -/
-def inSfmWindow (h : Hist) (k : Nat) : Bool :=
-  match ((steps h).take k).getLast? with
+def isTrunc : Option Step → Bool
   | some (.sfmTrunc _) => true
   | _ => false
+
+/-- the last step that completed belongs to the command that was cut and is the truncating open of a .sfm -/
+def windowFrom (w : W) : Hist → Nat → Bool
+  | [], _ => false
+  | c :: h, k =>
+    let n := (cmdSteps w c).length
+    if n ≤ k then windowFrom (next w c) h (k - n) else isTrunc ((cmdSteps w c).take k).getLast?
+
+/-- the crash hit inside `WriteSfm`, between the truncating open (O_TRUNC) and the write -/
+def inSfmWindow (h : Hist) (k : Nat) : Bool := windowFrom {} h (k - 3)
 
 /-! ### restart -/
 
